@@ -314,18 +314,29 @@ def otel(ctx, facts, rule_f):
     ctx.check(okev, rule_f, fn.path, fn.loc(b), "SpanData.events <- map_events(record.events)", "", "events operand is not map_events(record.events)", extra="SpanData.events")
     me = facts.fn("fastrace_opentelemetry::map_events")
     if me is not None:
-        c = me.calls_re(r"opentelemetry::trace::Event::new$|trace::span::Event::new$|Event::new$", cleanup=False)
+        host, c = me, me.calls_re(r"opentelemetry::trace::Event::new$|trace::span::Event::new$|Event::new$", cleanup=False)
+        if not c:
+            # `queue.events.extend(events.into_iter().map(|event| Event::new(..)))`: built in the mapping closure
+            for cl in facts.closures_of(me):
+                cc = cl.calls_re(r"opentelemetry::trace::Event::new$|trace::span::Event::new$|Event::new$", cleanup=False)
+                if cc:
+                    host, c = cl, cc
         okm = False
         if c:
-            t = me.term(c[0])
-            a0 = data(prov.of_operand(me, t["args"][0]))
-            a1 = data(prov.of_operand(me, t["args"][1]))
-            a2 = data(prov.of_operand(me, t["args"][2]))
+            t = host.term(c[0])
+            a0 = data(prov.of_operand(host, t["args"][0]))
+            a1 = data(prov.of_operand(host, t["args"][1]))
+            a2 = data(prov.of_operand(host, t["args"][2]))
             okm = any(".name" in x.path for x in a0) and any(".timestamp_unix_ns" in x.path for x in a1) and \
                 any(".properties" in x.path for x in a2) and not any(".timestamp_unix_ns" in x.path for x in a0 | a2) and \
                 not any(".name" in x.path for x in a1 | a2) and not any(".properties" in x.path for x in a0 | a1)
             pushes = [bb for bb in me.calls_re(r"Vec::<T, A>::push$", cleanup=False) if me.on_cycle(bb)]
-            okm = okm and bool(pushes) and any(v[0] == "call" and v[1].endswith("Event::new") for x in prov.of_operand(me, me.term(pushes[0])["args"][1]) for v in x.via)
+            one_each = bool(pushes) and any(v[0] == "call" and v[1].endswith("Event::new") for x in prov.of_operand(me, me.term(pushes[0])["args"][1]) for v in x.via)
+            if not one_each and host is not me:
+                calls = [me.term(bb)["callee"] for bb in me.calls() if not me.blocks[bb]["cleanup"]]
+                one_each = any(re.search(r"iter::traits::collect::Extend<.*>>?::extend$|Vec::<T, A>::(extend|append)$|Iterator>?::collect$", x) for x in calls) and \
+                    any(re.search(r"Iterator>?::map$", x) for x in calls) and not any(ITER_BAD.search(x) for x in calls)
+            okm = okm and one_each
         ctx.check(okm, rule_f, me.path, me.span, "map_events: Event::new(name <- event.name, time <- timestamp_unix_ns, attributes <- properties), "
                   "one per input event", "", "argument origins differ", extra="map_events")
 
